@@ -1,0 +1,11 @@
+//go:build verif
+
+package cache
+
+// VerifSetNow replaces the clock (seconds) of the in-memory TTL cache and
+// returns a function restoring the previous one.
+func VerifSetNow(fn func() int64) (restore func()) {
+	var old = now
+	now = fn
+	return func() { now = old }
+}
